@@ -13,10 +13,28 @@ pub trait ExPattern: Sized {
 pub uninterp spec fn pat_prefix<P>(s: Seq<char>, p: P) -> bool;
 pub assume_specification<P: Pattern>[ str::starts_with::<P> ](s: &str, pat: P) -> (r: bool)
     ensures r == pat_prefix(s@, pat);
-/// O1 stub for `tok.find('=')`: pure, total; its value is not modelled
+/// O1 stub for `tok.find('=')`: pure, total; its value is the uninterpreted find_eq
+pub uninterp spec fn find_eq(s: Seq<char>) -> Option<usize>;
 #[verifier::external_body]
 fn opq_find_eq(s: &String) -> (r: Option<usize>)
+    ensures r == find_eq(s@),
 { unimplemented!() }
+/// O1 stubs for `&str == "lit"` / `String != "lit"` (vstd attaches no spec to these PartialEq impls): string equality
+#[verifier::external_body]
+fn opq_str_is(a: &str, b: &str) -> (r: bool)
+    ensures r == (a@ == b@),
+{ unimplemented!() }
+#[verifier::external_body]
+fn opq_string_is_not(a: &String, b: &str) -> (r: bool)
+    ensures r == (a@ != b@),
+{ unimplemented!() }
+/// git's grammar for a value-taking global option: the token carries its own value when it is `--opt=value`
+/// or a sticky `-C<path>` / `-c<name..>`; otherwise the value is the NEXT token
+pub open spec fn carries_value(tok: Seq<char>, key: Seq<char>) -> bool {
+    (match find_eq(tok) { Some(e) => e > 0 && pat_prefix(tok, "--"), None => false })
+    || (key == "-C"@ && tok != "-C"@ && pat_prefix(tok, "-C"))
+    || (key == "-c"@ && tok != "-c"@ && pat_prefix(tok, "-c"))
+}
 
 /// the argument vector as a sequence of strings
 pub open spec fn strs(v: Seq<String>) -> Seq<Seq<char>> { v.map_values(|s: String| s@) }
@@ -77,12 +95,14 @@ impl ParsedGitInvocation {
     }
 //#end
 }
-//#item file=src/git/cli_parser.rs kind=fn name=take_valueish in_fn=parse_git_cli_args opaque='[{"expr": "tok.find(\u0027=\u0027)", "call": "opq_find_eq(tok)"}]'
+//#item file=src/git/cli_parser.rs kind=fn name=take_valueish in_fn=parse_git_cli_args opaque='[{"expr": "tok.find(\u0027=\u0027)", "call": "opq_find_eq(tok)"}, {"expr": "key == \"-C\"", "call": "opq_str_is(key, \"-C\")"}, {"expr": "tok != \"-C\"", "call": "opq_string_is_not(tok, \"-C\")"}, {"expr": "key == \"-c\"", "call": "opq_str_is(key, \"-c\")"}, {"expr": "tok != \"-c\"", "call": "opq_string_is_not(tok, \"-c\")"}]'
     fn take_valueish(all: &[String], i: usize, key: &str) -> (r_: (Vec<String>, usize))
     //@     requires i < all@.len(),
     //@     ensures
     //@         // the tokens handed back are exactly the tokens consumed, in order: nothing is dropped, invented or reordered
     //@         1 <= r_.1 <= 2, i + r_.1 <= all@.len(),
+    //@         // a self-contained option token never swallows the token after it; a bare one takes exactly the next token
+    //@         r_.1 == (if carries_value(all@[i as int]@, key@) || i + 1 >= all@.len() { 1usize } else { 2usize }),
     //@         strs(r_.0@) =~= strs(all@).subrange(i as int, i + r_.1),
     {
         let tok = &all[i];
@@ -94,10 +114,10 @@ impl ParsedGitInvocation {
         } }
 
         // Short sticky for -Cpath / -cname=value
-        if key == "-C" && tok != "-C" && tok.starts_with("-C") {
+        if opq_str_is(key, "-C") && opq_string_is_not(tok, "-C") && tok.starts_with("-C") {
             return (vec![tok.clone()], 1);
         }
-        if key == "-c" && tok != "-c" && tok.starts_with("-c") {
+        if opq_str_is(key, "-c") && opq_string_is_not(tok, "-c") && tok.starts_with("-c") {
             return (vec![tok.clone()], 1);
         }
 
